@@ -283,7 +283,7 @@ def gen_anon(rnd, tier):
             add_res(c, pick_name())
     # optionally nest: child 2 absorbs child 1... only when there are >= 2 children
     order = list(range(1, nchild + 1))
-    if nchild >= 2 and rnd.random() < 0.4:
+    if nchild >= 2 and rnd.random() < 0.6:
         ops.append(["win", 2, 1, None, None, None]); ops.append(["obs"])
         nm[2] += nm[1]
         order = [c for c in order if c != 1]
@@ -291,6 +291,10 @@ def gen_anon(rnd, tier):
         add_res(0, pick_name())
     for c in order:
         anon = rnd.random() < 0.8
+        if nm[c] and rnd.random() < 0.5:
+            # a name already visible in the root that is related to one the window would bring in (possibly from
+            # two anonymous levels down): the window must then be refused, or accepted when merely similar
+            add_res(0, related(rnd.choice(nm[c])))
         ops.append(["win", 0, c, None if anon else {"t": pick_name()}, None, None])
         # no observation in between: the very next call is the interesting one
         pool = nm[c] if (anon and nm[c]) else (nm[0] or [pick_name()])
